@@ -88,8 +88,10 @@ _ARITH_TRAITS = {
 
 
 class Interval:
-    def __init__(self, body, params=None):
+    def __init__(self, body, params=None, assume=None):
         self.body = body
+        # {local: intervals} forced onto a local wherever it is assigned (a what-if run for one value of a byte)
+        self.assume = dict(assume or {})
         self.entry = {}  # bb -> state dict: key -> intervals ; key = local int or (local, field)
         self.preds = {}  # (bb) not needed: predicates are derived per block from defs
         self.iterations = {}
@@ -152,6 +154,10 @@ class Interval:
             return None
         alo, ahi = bounds(a)
         blo, bhi = bounds(b)
+        if alo == ahi and blo == bhi and alo >= 0 and blo >= 0 and op in ("BitAnd", "BitOr", "BitXor"):
+            # both operands known exactly
+            r_ = alo & blo if op == "BitAnd" else alo | blo if op == "BitOr" else alo ^ blo
+            return self.clamp(((r_, r_),), ty)
         if op in ("Add", "AddWithOverflow", "AddUnchecked"):
             res = norm([(x1 + x2, y1 + y2) for x1, y1 in a for x2, y2 in b])
         elif op in ("Sub", "SubWithOverflow", "SubUnchecked"):
@@ -184,6 +190,11 @@ class Interval:
     def transfer_stmt(self, st, s):
         if s["k"] != "assign":
             return
+        self._transfer_stmt(st, s)
+        if self.assume and not s["p"]["pr"] and s["p"]["l"] in self.assume:
+            st[s["p"]["l"]] = self.assume[s["p"]["l"]]
+
+    def _transfer_stmt(self, st, s):
         self._cur_line = s.get("line")
         p = s["p"]
         rv = s["rv"]
